@@ -83,6 +83,16 @@ Proof.
   - intros Hd. apply delete_denied_general; assumption.
 Qed.
 
+(* EXTENSION (beyond the literal statement): holders of the limited-remit roles — service desk,
+   people on-boarding, group admins, service-account admins, OAuth2-account admins — are members of
+   HP themselves, yet as long as they hold no other high-privilege group they, too, can change
+   nothing on and cannot delete a high-privilege entry (other than their own / one they manage):
+   the profiles they receive exclude high-privilege targets. *)
+Theorem C25_limited_roles_denied : forall i e,
+  subject_limited i e = true ->
+  (forall ml, modify_entry i builtin e ml = false) /\ delete_entry i builtin e = false.
+Proof. exact limited_denied. Qed.
+
 (* The shipped data meets the criterion: every group that receives a modify or delete profile able
    to reach a high-privilege entry is itself a member of HP; and the dumped nesting is transitively
    closed.  (Re-proved by computation whenever the regenerated data changes.) *)
